@@ -661,3 +661,12 @@ Proof.
   intros st kt u k c. unfold step, step_calls. cbn [plan]. unfold Fixed; cbn [v_import_checks].
   destruct (negb (kt_importable kt)); destruct c as [[n|n]|]; cbn; repeat split; reflexivity.
 Qed.
+
+(* an import — under whatever id, e.g. another spelling of an id in use — leaves every OTHER id's entry as it was *)
+Lemma import_keeps_other_entries : forall st kt u k c id ks,
+  lookup (st_store st) id = Some ks ->
+  lookup (st_store (fst (step Fixed st (KImport kt (Some u) k, c)))) id = Some ks.
+Proof.
+  intros st kt u k c id ks L.
+  destruct (step_entry st (KImport kt (Some u) k, c) id ks L) as [K | (E & _)]; [exact K | discriminate].
+Qed.
